@@ -87,7 +87,7 @@ def run(ctx):
     # ---- M: region opacity and tiling on the character-level model ------------------
     res = tlc.run(ctx.workdir, 'MC_LexProp', cfg('regions', SIG, 2 if quick else 3, False), extra_modules={'MC_LexProp': MC % ''},
                   workers=16, label='LexProp_regions', coverage=False, timeout=1500)
-    ctx.add_tlc(res, 'LexProp regions: 7 kinds x 8 x 7 contexts x all bodies len<=%d over %d symbols' % (2 if quick else 3, len(SIG)))
+    ctx.add_tlc(res, 'LexProp regions: 12 kinds x 8 x 7 contexts x all bodies len<=%d over %d symbols' % (2 if quick else 3, len(SIG)))
     # ---- S->C (a): every short class string, model prediction vs the real lexer -------
     if quick:
         strings = run_lexprop(ctx, 'strings', SIG, 3, True, 'LexProp_strings', prefixes=[(s,) for s in SIG])
@@ -139,7 +139,9 @@ def run(ctx):
             tr['region'] = {'lo': r['lo'], 'hi': r['hi'], 'ty': next(t[0] for t in r['toks'] if t[1] == r['hi']) if any(t[1] == r['hi'] for t in r['toks']) else '?'}
             # the region's type comes from the spec (TypeOf), independent of the model lexer's verdict
             tr['region']['ty'] = {'str': 'String.Single', 'dqname': 'String.Symbol', 'btname': 'Name', 'cmtm': 'Comment.Multiline',
-                                  'cmt1': 'Comment.Single', 'dollar': 'Literal', 'dollartag': 'Literal'}[r['kind']]
+                                  'cmt1': 'Comment.Single', 'dollar': 'Literal', 'dollartag': 'Literal', 'cmt1cr': 'Comment.Single',
+                                  'cmt1hash': 'Comment.Single', 'hint1': 'Comment.Single.Hint', 'hint1cr': 'Comment.Single.Hint',
+                                  'hintm': 'Comment.Multiline.Hint'}[r['kind']]
             for e in tr['ev']:
                 e.pop('ty', None)
             traces.append(tr)
